@@ -133,7 +133,7 @@ func judgeC01(rc *RunCtx, cr *CheckRun, main bool) {
 		return
 	}
 	if w.Escaped != nil {
-		rc.V(viol("C01.R5", "check-crashed", "a panic escaped Check: %s", w.EscapedStr))
+		rc.V(viol("C01.R5", "check-crashed", "a panic escaped Check: %s [%s]", w.EscapedStr, w.EscapedStack))
 		return
 	}
 	signalled := anySignalled(cr)
